@@ -372,6 +372,16 @@ func (s *Store) LinkSystem(reifiers bool) *ipld.LinkSystem {
 	ls := cidlink.DefaultLinkSystem()
 	ls.StorageReadOpener = s.OpenRead
 	ls.StorageWriteOpener = s.OpenWrite
+	if !reifiers {
+		// the link system handed to builders (and used for the harness's own plain loads): the
+		// builders take no context from their caller, so what they read cannot carry one
+		ls.StorageReadOpener = func(lc linking.LinkContext, l datamodel.Link) (io.Reader, error) {
+			if lc.Ctx == nil || lc.Ctx.Value(ctxKey{}) == nil {
+				lc.Ctx = Ctx
+			}
+			return s.OpenRead(lc, l)
+		}
+	}
 	if reifiers {
 		unixfsnode.AddUnixFSReificationToLinkSystem(&ls)
 	}
@@ -530,7 +540,13 @@ func StyledEncoders(ls *ipld.LinkSystem, hdr, style int) *ipld.LinkSystem {
 // fresh store while an older snapshot serves reads).
 func SplitLinkSystem(read, write *Store) *ipld.LinkSystem {
 	ls := cidlink.DefaultLinkSystem()
-	ls.StorageReadOpener = read.OpenRead
+	// the builders take no context from their caller, so whatever they read cannot carry one
+	ls.StorageReadOpener = func(lc linking.LinkContext, l datamodel.Link) (io.Reader, error) {
+		if lc.Ctx == nil || lc.Ctx.Value(ctxKey{}) == nil {
+			lc.Ctx = Ctx
+		}
+		return read.OpenRead(lc, l)
+	}
 	ls.StorageWriteOpener = write.OpenWrite
 	return &ls
 }
